@@ -160,12 +160,16 @@ func (img *Image) ApplyOp(op *Op, tornK int) {
 // data-only model: every file reverts to its durable extent plus a prefix of
 // the bytes appended since (chosen by pick(n) in [0,n]); files whose synced
 // bytes were rewritten revert to the shadow copy or keep the new content.
-// Directory operations are durable. Returns the number of files that lost bytes.
-func (img *Image) PowerLoss(pick func(n int) int) int {
+// Directory operations are durable; files for which durable(path) is true are
+// left untouched. Returns the number of files that lost bytes.
+func (img *Image) PowerLoss(pick func(n int) int, durable func(path string) bool) int {
 	lost := 0
 	paths := img.Paths()
 	for _, p := range paths {
 		fl := img.Files[p]
+		if durable != nil && durable(p) {
+			continue
+		}
 		if fl.HasShadow {
 			if pick(1) == 0 {
 				fl.Data = fl.Shadow
@@ -256,12 +260,18 @@ func (img *Image) Hash() uint64 {
 	return h.Sum64()
 }
 
+// DescribeHex makes Describe include the content of small log files.
+var DescribeHex bool
+
 // Describe lists files and sizes.
 func (img *Image) Describe() string {
 	var b strings.Builder
 	for _, p := range img.Paths() {
 		fl := img.Files[p]
 		fmt.Fprintf(&b, "%s len=%d synced=%d\n", p, len(fl.Data), fl.SyncedLen)
+		if DescribeHex && len(fl.Data) > 0 && len(fl.Data) <= 400 && strings.HasSuffix(p, ".wal") {
+			fmt.Fprintf(&b, "   %x\n", fl.Data)
+		}
 	}
 	return b.String()
 }
